@@ -134,6 +134,17 @@ def h_integrate(sx, cfg):
     m2 = f.mean(list(dims))
     for k in range(nv):
         sx.check(f"mean-all-listed[{k}]", sx.eq(m2[k], m[k]))
+    if nd == 1:
+        # the single direction of a 1-d field, given by name: like integrate(name) nothing remains of the mesh
+        try:
+            m3 = f.mean(dims[0])
+        except Exception as ex:  # noqa: BLE001
+            sx.check("mean-1d-by-name-accepted", False, exc=f"{type(ex).__name__}: {ex}")
+        else:
+            m3 = m3.array.reshape(-1) if isinstance(m3, df.Field) else m3
+            sx.check("mean-1d-by-name-shape", tuple(np.shape(m3)) == (nv,))
+            for k in range(nv):
+                sx.check(f"mean-1d-by-name[{k}]", sx.eq(m3[k], m[k]))
     if nd > 1:
         subsets = [[a] for a in range(nd)]
         if nd > 2:
@@ -255,8 +266,37 @@ def h_int_corners(sx, cfg):
         sx.check("cell-volume", bool(np.isclose(float(mesh.dV), vol, rtol=1e-12)))
 
 
+def h_int_values(sx, cfg):
+    """integer-typed data (concrete; the cast happens inside numpy): directional and multi-directional means are the
+    integrals divided by the extents, not truncated to integers"""
+    df = lib.load()
+    with sx.native():
+        n = tuple(cfg["n"])
+        nd = len(n)
+        p2 = tuple(1.5 * (a + 1) * n[a] for a in range(nd))
+        mesh = df.Mesh(p1=(0.0,) * nd if nd > 1 else 0.0, p2=p2 if nd > 1 else p2[0], n=n if nd > 1 else n[0])
+        rng = np.random.default_rng(5)
+        vals = rng.integers(-9, 10, size=(*n, 2)).astype(cfg.get("dtype", "int64"))
+        fi = df.Field(mesh, nvdim=2, value=vals, dtype=vals.dtype)
+        dims = list(mesh.region.dims)
+        for a, d in enumerate(dims):
+            got = fi.mean(d)
+            want = fi.integrate(d)
+            got = np.asarray(got.array if isinstance(got, df.Field) else got, dtype=float)
+            want = np.asarray(want.array if isinstance(want, df.Field) else want, dtype=float) / p2[a]
+            sx.check(f"int-data-mean-{d}", bool(np.allclose(got, want, rtol=1e-12, atol=1e-12)) and bool(np.allclose(got.reshape(-1, 2), vals.astype(float).mean(axis=a).reshape(-1, 2), rtol=1e-12)))
+        if nd > 2:
+            got = fi.mean(dims[:2])
+            got = np.asarray(got.array if isinstance(got, df.Field) else got, dtype=float)
+            sx.check("int-data-mean-two-directions", bool(np.allclose(got.reshape(-1, 2), vals.astype(float).mean(axis=(0, 1)).reshape(-1, 2), rtol=1e-12)))
+        sx.check("int-data-mean-all", bool(np.allclose(np.asarray(fi.mean(), dtype=float), vals.reshape(-1, 2).astype(float).mean(axis=0), rtol=1e-12)))
+        sx.check("int-data-total", bool(np.allclose(np.asarray(fi.integrate(), dtype=float), vals.reshape(-1, 2).astype(float).sum(axis=0) * float(np.prod([p2[a] / n[a] for a in range(nd)])), rtol=1e-12)))
+
+
 def tasks(tier):
     t = []
+    for n in ((3,), (2, 3), (2, 3, 2)):
+        t.append(dict(harness="h_int_values", cfg=dict(n=list(n))))
     for n, ext in (((3, 2, 2), 3_000_000), ((2, 1, 2, 2), 70_000), ((4,), 10**15), ((2, 3), 4_000_000_000)):
         t.append(dict(harness="h_int_corners", cfg=dict(n=list(n), extent=ext)))
     if tier == "quick":
@@ -264,11 +304,14 @@ def tasks(tier):
     else:
         shapes = [((k,), nv) for k in (1, 2, 4) for nv in (1, 3)]
         shapes += [((2, 3), 1), ((3, 1), 2), ((4, 2), 3), ((1, 1), 1), ((2, 1, 3), 1), ((1, 2, 2), 2), ((3, 2, 2), 1), ((2, 2, 2), 3),
-                   ((2, 1, 2, 2), 1), ((1, 2, 1, 3), 2), ((2, 2), 4)]
+                   ((2, 1, 2, 2), 1), ((1, 2, 1, 2), 1), ((2, 2), 4)]
     for n, nv in shapes:
         # 4-d: a third of the 24 integration orders (each order is a product of four symbolic cell sizes; all of them take an hour)
         t.append(dict(harness="h_integrate", cfg=dict(n=list(n), nvdim=nv, dims="renamed" if len(n) % 2 else "default",
                                                       all_orders=(tier != "quick" and len(n) < 4), listarg=bool(sum(n) % 2))))
+    # an axis called 'V' (mesh.dV is the cell volume, not a cell length)
+    for n, nv in ([((2, 3), 1), ((2, 2, 2), 1)] if tier == "quick" else [((3,), 1), ((2, 3), 2), ((2, 2, 2), 1), ((2, 1, 1, 2), 1)]):
+        t.append(dict(harness="h_integrate", cfg=dict(n=list(n), nvdim=nv, dims="vnamed", all_orders=False, listarg=False)))
     lin = [((3,), 1, 0), ((2, 2), 2, 1), ((2, 1, 2), 1, 2)] if tier == "quick" else [((3,), 2, 0), ((2, 3), 2, 1), ((3, 2), 1, 0), ((2, 1, 2), 1, 2), ((2, 2, 2), 2, 1), ((2, 1, 2, 1), 1, 2)]
     for n, nv, ax in lin:
         t.append(dict(harness="h_linear_translate", cfg=dict(n=list(n), nvdim=nv, axis=ax)))
